@@ -113,6 +113,8 @@ async fn scenario(sim: Arc<Sim>, unit: Value) -> Obs {
     lc.max_concurrent_connections = limit;
     lc.connectivity_check_interval_ms = Some(1_000);
     lc.connection_backoff_ms = Some(1_000);
+    lc.max_connection_backoff_ms = Some(1_000);
+    lc.connect_timeout_ms = Some(800);
     anemo::verif::set_jitter_override(Some(std::time::Duration::ZERO));
     let l = sim.start(&NodeSpec::new(10).config(lc)).unwrap();
     let mut dc = anemo::Config::default();
@@ -136,6 +138,12 @@ async fn scenario(sim: Arc<Sim>, unit: Value) -> Obs {
     for d in 0..D {
         set_aff(d, affs[d]);
     }
+    // optionally a High-affinity peer whose only address is a black hole: the listener keeps a
+    // background dial to it in progress most of the time; it never counts as established
+    let ghost_socket = std::net::UdpSocket::bind("127.0.0.1:0").unwrap();
+    if unit["ghost"].as_bool().unwrap_or(false) {
+        l.known_peers().insert(known_peer(peer_id_of_key(99), PeerAffinity::High, vec![ghost_socket.local_addr().unwrap()]));
+    }
     // reference model: the set of dialers with an established connection to the listener
     let mut est: BTreeSet<usize> = BTreeSet::new();
     // The listener's connectivity check fires at start and then every whole second (jitter 0).
@@ -146,7 +154,7 @@ async fn scenario(sim: Arc<Sim>, unit: Value) -> Obs {
     macro_rules! viol {
         ($k:expr, $($arg:tt)*) => { o.violations.push(($k.to_string(), format!($($arg)*))) };
     }
-    let ctx = format!("[limit {limit:?}, affinities {:?}]", unit["affinities"]);
+    let ctx = format!("[limit {limit:?}, affinities {:?}, ghost High peer {}]", unit["affinities"], unit["ghost"].as_bool().unwrap_or(false));
     for (step, op) in ops.iter().enumerate() {
         // next slot; the background check(s) in between connect every High-affinity peer
         slot += 1;
@@ -252,7 +260,7 @@ impl Check for C10 {
         CheckMeta {
             property: "C10",
             level: "model_checking",
-            rule: "one listener + 4 dialers (real networks); every history over {arrive(d), listener disconnects d, d leaves, listener dials d explicitly, background tick, set affinity of d0 at runtime} up to the depth, for limit in {none,0,1,2,3} x 6 affinity tables; after every step the listener's and every dialer's listing and every connect result are compared with the reference admission model; states = histories executed, transitions = operations; distinct = distinct outcome shapes".into(),
+            rule: "one listener + 4 dialers (real networks); every history over {arrive(d), listener disconnects d, d leaves, listener dials d explicitly, background tick, set affinity of d0 at runtime} up to the depth, for limit in {none,0,1,2,3} x 6 affinity tables, with and without a High-affinity 'ghost' peer at a black-hole address (a background dial in progress at most arrivals); after every step the listener's and every dialer's listing and every connect result are compared with the reference admission model; states = histories executed, transitions = operations; distinct = distinct outcome shapes".into(),
             assumptions: vec!["arrivals are non-overlapping (150 ms apart), as the property stipulates".into(), "tick jitter pinned to 0 through the jitter hook".into()],
             exhaustive: true,
         }
@@ -267,10 +275,16 @@ impl Check for C10 {
                 if tier == Tier::Quick && ti >= 4 && lim.map(|l| l != 1).unwrap_or(true) {
                     continue;
                 }
-                for a in &alpha {
-                    for b in &alpha {
-                        // units are (config, first two ops); the rest of the depth is expanded inside
-                        u.push(json!({"limit":lim,"affinities":t,"ops":[op_json(a), op_json(b)],"expand":tier.pick(1, 2)}));
+                for ghost in [false, true] {
+                    // the ghost variant on two tables (quick) / all tables (thorough), finite limits only
+                    if ghost && (lim.is_none() || (tier == Tier::Quick && ti >= 2)) {
+                        continue;
+                    }
+                    for a in &alpha {
+                        for b in &alpha {
+                            // units are (config, first two ops); the rest of the depth is expanded inside
+                            u.push(json!({"limit":lim,"affinities":t,"ghost":ghost,"ops":[op_json(a), op_json(b)],"expand":tier.pick(1, 2)}));
+                        }
                     }
                 }
             }
